@@ -9,6 +9,7 @@ import (
 	"runtime"
 	"sort"
 	"strings"
+	"sync"
 	"sync/atomic"
 	"testing"
 	"testing/synctest"
@@ -41,21 +42,31 @@ type c04Dump struct {
 // c04Log is the per-execution observation log. Threads run one at a time (scheduler token), so a
 // plain counter orders the events.
 type c04Log struct {
+	mu     sync.Mutex // only contended in the free-running race pass
 	ev     int
 	writes []*c04Write
 	dumps  []*c04Dump
 	notes  []string
 }
 
-func (l *c04Log) tick() int { l.ev++; return l.ev }
+func (l *c04Log) tick() int {
+	l.mu.Lock()
+	defer l.mu.Unlock()
+	l.ev++
+	return l.ev
+}
 
 func (l *c04Log) write(v *vShard, id int, pts []vPoint) {
 	w := &c04Write{ID: id, Pts: pts, Start: l.tick()}
+	l.mu.Lock()
 	l.writes = append(l.writes, w)
+	l.mu.Unlock()
 	if err := v.Write(pts); err != nil {
 		w.Ack = -1
 		l.tick()
+		l.mu.Lock()
 		l.notes = append(l.notes, fmt.Sprintf("write %d failed: %v", id, err))
+		l.mu.Unlock()
 		return
 	}
 	w.Ack = l.tick()
@@ -67,7 +78,9 @@ func (l *c04Log) preload(id int, pts []vPoint) {
 
 func (l *c04Log) dump(v *vShard) {
 	d := &c04Dump{Start: l.tick()}
+	l.mu.Lock()
 	l.dumps = append(l.dumps, d)
+	l.mu.Unlock()
 	got := map[vKey]map[string]vVal{}
 	for _, mst := range []string{"m"} {
 		g, shape, err := v.Dump(vFullDumpQuery(mst))
@@ -557,4 +570,63 @@ func c04Explore(rep *kit.Report, sc c04Scenario, dir string, e *sched.Explorer, 
 		}
 	}
 	rep.Count(fmt.Sprintf("scenario_bounds_completed_%s", sc.Name), 1)
+}
+
+// TestVerifC04Race is the auxiliary free-running pass (DESIGN.md §2.3): the same scenario bodies run as plain
+// goroutines, many times, in a binary built with -race and WITHOUT the sync shim. The cooperative scheduler's
+// hand-offs are happens-before edges that blind the race detector, so unsynchronised accesses are looked for
+// here. Race reports go to stderr (counted by the front end) and are a caveat on the sequential-consistency
+// assumption, not a verdict; the history oracle is evaluated too (sampling, not the deciding step).
+func TestVerifC04Race(t *testing.T) {
+	rep := kit.NewReport("C04")
+	defer rep.Save()
+	vSetupEngineKnobs()
+	scratch := kit.Scratch()
+	reps := 40
+	if n := kit.Getenv("VERIF_RACE_REPS", ""); n != "" {
+		fmt.Sscanf(n, "%d", &reps)
+	}
+	for si, sc := range c04Scenarios {
+		if !kit.Mine(si) {
+			continue
+		}
+		for r := 0; r < reps; r++ {
+			if rep.Expired() {
+				return
+			}
+			dir := vMkdir(scratch, fmt.Sprintf("race-%d", si))
+			v, err := vOpenShard(dir)
+			if err != nil {
+				t.Fatal(err)
+			}
+			m := vModel{}
+			l := &c04Log{}
+			for i, op := range sc.Preload {
+				if err := vApply(v, m, op, i+1); err != nil {
+					t.Fatal(err)
+				}
+				if wi := vWriteIndex(op); wi >= 0 {
+					l.preload(i+1, vWriteMenu[wi].Gen(i+1))
+				}
+			}
+			var wg sync.WaitGroup
+			for _, fn := range sc.Threads(v, l) {
+				wg.Add(1)
+				go func(f func()) { defer wg.Done(); f() }(fn)
+			}
+			wg.Wait()
+			rep.Eval(1)
+			rep.Count("race_pass_executions", 1)
+			if bad := l.check(sc.Closing); len(bad) > 0 {
+				rep.Violation("free_running_"+c04Classify(bad), sc.Name, strings.Join(bad, "; "), c04Case{Scenario: sc.Name})
+			}
+			if sc.Closing {
+				_ = v.sh.indexBuilder.Close()
+				v.sh = nil
+			} else {
+				_ = v.Close()
+			}
+			_ = os.RemoveAll(dir)
+		}
+	}
 }
